@@ -332,6 +332,65 @@ def calls_on_path(fn, path):
     return out
 
 
+def check_include_tries_next_candidate(fn):
+    """perform_include: when a candidate cannot be loaded (the Err edge of the test of `State::get_template`'s
+    result) the function either fails (an exit that sets `_0 = Err`) or asks the iterator for the NEXT candidate
+    before it can succeed: P := 1 on that Err edge, P := 0 at `Iterator::next`, P = 0 required wherever
+    `_0 = Ok(..)` is set (assignment semantics, not a counter)."""
+    adj, preds = cfg(fn)
+    der, defcount = derive_map(fn)
+    loads = set()
+    for b in fn['blocks'].values():
+        dst, callee = call_of(b['term'])
+        if dst and re.search(r'State::<[^>]*>::get_template\(', callee):
+            loads.add(dst)
+    s_ = z3.Solver()
+    s_.set('timeout', 30000)
+    D = {b: z3.Int('P_%s' % b) for b in fn['blocks'] if not fn['blocks'][b]['cleanup']}
+    s_.add(D['bb0'] == 0)
+    n = fails = nexts = oks = 0
+    for bid in adj:
+        blk = fn['blocks'][bid]
+        if any(re.match(r'_0 = ', st) for st in blk['stmts']):
+            if any(re.match(r'_0 = Result::<.*>::Ok\(', st) for st in blk['stmts']):
+                s_.add(D[bid] == 0)
+                oks += 1
+            continue
+        _, callee = call_of(blk['term'])
+        is_next = bool(callee and re.search(r'as Iterator>::next\(', callee))
+        nexts += is_next
+        for label, tgt in adj[bid]:
+            _, tcallee = call_of(fn['blocks'][tgt]['term'])
+            if tcallee and re.search(r'as Iterator>::next\(', tcallee) and not is_next:
+                n += 1
+                continue          # P is overwritten by that block: its value on entry is irrelevant
+            eff = None
+            if label == 'ok' and is_next:
+                eff = 0
+            if isinstance(label, tuple):
+                m = re.match(r'switchInt\((?:copy|move) (_\d+)\)', blk['term'])
+                loc = m.group(1)
+                if loc in der and der[loc][1] == 'disc' and der[loc][0] in loads and label[1] == '1':
+                    eff = 1
+                    fails += 1
+            if eff is None:
+                s_.add(D[tgt] == D[bid])
+            else:
+                s_.add(D[tgt] == eff)
+            n += 1
+    t0 = time.time()
+    r = s_.check()
+    dt = time.time() - t0
+    stats = dict(blocks=len(D), edges=n, load_failure_edges=fails, next_calls=nexts, ok_exits=oks)
+    if fails == 0 or nexts == 0 or oks == 0:
+        return 'unknown', dict(kind='perform_include: candidate loop not recognised (load failures=%d next=%d ok exits=%d)' % (fails, nexts, oks), path_a=None, path_b=None), dt, stats
+    if r == z3.sat:
+        return 'sat', None, dt, stats
+    if r != z3.unsat:
+        return str(r), None, dt, stats
+    return 'unsat', dict(kind='after a candidate that could not be loaded the function can succeed without asking for the next candidate', path_a=None, path_b=None), dt, stats
+
+
 def analyse(repo, out_dir):
     mir = dump_mir(repo, out_dir)
     results = []
@@ -352,6 +411,12 @@ def analyse(repo, out_dir):
                 elif verdict == 'unknown':
                     r['detail'] = '; '.join(info)
                 results.append(r)
+        if fname == 'perform_include':
+            verdict, info, dt, stats = check_include_tries_next_candidate(fn)
+            r = dict(function=fname, resource='next_candidate', spec={}, verdict=verdict, z3_s=round(dt, 3), **stats)
+            if info:
+                r['conflict'] = info['kind']
+            results.append(r)
     return results
 
 
